@@ -20,17 +20,19 @@ type G struct {
 	atomicDepth int
 	vc          []int // vector clock
 	fn          func()
+	waitChans   []*ChanV // channels this goroutine is blocked on (recv / select)
 }
 
 type Timer struct {
-	id       int
-	deadline *Term // BV64 ns
-	fire     func()
-	period   *Term // nil for one-shot
-	active   bool
-	desc     string
-	dormant  func() bool
+	id         int
+	deadline   *Term // BV64 ns
+	fire       func()
+	period     *Term // nil for one-shot
+	active     bool
+	desc       string
+	dormant    func() bool
 	wasDormant bool
+	ch         *ChanV // channel fed by this timer, if any
 }
 
 type ChanV struct {
@@ -41,7 +43,8 @@ type ChanV struct {
 	// rendezvous for unbuffered channels
 	recvWaiting int
 	pendingSend []*pendingSend
-	vc          []int // happens-before carried by close/send
+	vc          []int  // happens-before carried by close/send
+	timer       *Timer // set for channels fed by time.After / Ticker / Timer
 }
 
 type pendingSend struct {
@@ -368,9 +371,22 @@ func (m *Machine) addTimer(d *Term, desc string, fire func()) *Timer {
 
 // advanceTime fires one pending timer that can be the earliest; returns false if none is pending.
 func (m *Machine) advanceTime() bool {
+	waited := map[*ChanV]bool{}
+	for _, g := range m.gs {
+		if !g.done && g.blockedOn != nil {
+			for _, c := range g.waitChans {
+				waited[c] = true
+			}
+		}
+	}
 	var act []*Timer
 	for _, t := range m.timers {
 		if t.active {
+			if t.ch != nil && !waited[t.ch] {
+				// nobody is waiting for this channel: its firing is unobservable until someone looks at the
+				// channel (lazyTimer), so it does not drive the clock
+				continue
+			}
 			if t.dormant != nil && t.dormant() {
 				// a periodic timer whose tick would be dropped (channel full): firing it changes nothing
 				t.wasDormant = true
@@ -423,6 +439,13 @@ func (m *Machine) advanceTime() bool {
 		})
 	}
 	t := act[idx]
+	if trailDebug {
+		ds := ""
+		for i, a := range act {
+			ds += fmt.Sprintf(" [%d]%s#%d", i, a.desc, a.id)
+		}
+		fmt.Printf("TIMER fire idx=%d of%s\n", idx, ds)
+	}
 	m.assume(earliest(t))
 	m.now = t.deadline
 	m.firings++
@@ -499,12 +522,33 @@ func (m *Machine) chanTake(c *ChanV) (Value, bool) {
 	return nil, false // closed
 }
 
+// lazyTimer: a goroutine looks at a timer-fed channel: if the timer's deadline may already have passed (it was not
+// waited for, so it did not drive the clock), decide now whether it has.
+func (m *Machine) lazyTimer(c *ChanV) {
+	t := c.timer
+	if t == nil || !t.active || len(c.buf) > 0 {
+		return
+	}
+	if m.branch(BvCmp("bvsle", t.deadline, m.now)) {
+		if t.period != nil {
+			t.deadline = BvBin("bvadd", t.deadline, t.period)
+		} else {
+			t.active = false
+		}
+		t.fire()
+	}
+}
+
 func (m *Machine) chanRecv(c *ChanV) (Value, bool) {
 	m.schedPoint("recv")
 	if c == nil {
 		m.blockUntil("recv on nil chan", func() bool { return false })
 	}
+	m.lazyTimer(c)
+	g := m.cur
+	g.waitChans = []*ChanV{c}
 	m.blockUntil("chan recv", c.canRecv)
+	g.waitChans = nil
 	return m.chanTake(c)
 }
 
@@ -553,6 +597,11 @@ func (m *Machine) selectStmt(fr *frame, instr *ssa.Select) Value {
 		}
 		return r
 	}
+	for _, k := range cases {
+		if k.c != nil && !k.send {
+			m.lazyTimer(k.c)
+		}
+	}
 	r := ready()
 	chosen := -1
 	if len(r) == 0 {
@@ -564,7 +613,14 @@ func (m *Machine) selectStmt(fr *frame, instr *ssa.Select) Value {
 					panic(unsupported{"blocking select with unbuffered send"})
 				}
 			}
+			g := m.cur
+			for _, k := range cases {
+				if k.c != nil && !k.send {
+					g.waitChans = append(g.waitChans, k.c)
+				}
+			}
 			m.blockUntil("select", func() bool { return len(ready()) > 0 })
+			g.waitChans = nil
 			r = ready()
 		}
 	}
